@@ -642,6 +642,92 @@ fn special_descriptors(case: u64, r: &mut Rng) {
         }
     }
     out::count("special_descriptor_sequences", 1);
+    if case % 5 == 3 {
+        nonblocking_exact(case, r);
+    }
+}
+
+/// Non-blocking stream sockets: an exact-form transfer that cannot complete ends with WouldBlock
+/// after the partial transfer, exactly as std's read_exact / write_all do. The library call runs
+/// on its own thread under a generous watchdog: if it has not returned after 20 s while std
+/// returned at once, the socket is fed / drained so that the thread can finish, and the hang is
+/// reported.
+fn nonblocking_exact(case: u64, r: &mut Rng) {
+    use std::sync::mpsc;
+    use std::time::Duration;
+    let have = 1 + r.usize_below(6);
+    let want = have + 1 + r.usize_below(12);
+    let data = r.bytes(have);
+    // reader side
+    let (mut a1, mut b1) = UnixStream::pair().unwrap();
+    let (mut a2, mut b2) = UnixStream::pair().unwrap();
+    b1.write_all(&data).unwrap();
+    b2.write_all(&data).unwrap();
+    a1.set_nonblocking(true).unwrap();
+    a2.set_nonblocking(true).unwrap();
+    let mut ob = vec![0u8; want];
+    let std_res = rs(a2.read_exact(&mut ob).map(|()| want));
+    let (tx, rx) = mpsc::channel();
+    let h = std::thread::spawn(move || {
+        let vb = VBuf::new(want, 1, 0xEE);
+        let mut vs = vb.vs();
+        let res = rv(a1.read_exact_volatile(&mut vs).map(|()| want));
+        let _ = tx.send(res);
+    });
+    match rx.recv_timeout(Duration::from_secs(20)) {
+        Ok(res) => {
+            if res != std_res {
+                v("UnixStream(non-blocking)", "read_exact/result-differs", jobj! {"volatile" => J::dbg(&res), "std" => J::dbg(&std_res), "available" => have, "wanted" => want, "case" => case});
+            }
+        }
+        Err(_) => {
+            v("UnixStream(non-blocking)", "read_exact/did-not-return", jobj! {"std" => J::dbg(&std_res), "available" => have, "wanted" => want, "case" => case});
+            let _ = b1.write_all(&vec![0u8; want]);
+        }
+    }
+    let _ = h.join();
+    out::key("special|non-blocking|read_exact", true);
+    out::eval(1);
+    // writer side: more than the socket buffer takes
+    let big = vec![0x5au8; 4 << 20];
+    let (mut w1, r1) = UnixStream::pair().unwrap();
+    let (mut w2, _r2) = UnixStream::pair().unwrap();
+    w1.set_nonblocking(true).unwrap();
+    w2.set_nonblocking(true).unwrap();
+    let std_res = rs(w2.write_all(&big).map(|()| big.len()));
+    let (tx, rx) = mpsc::channel();
+    let big2 = big.clone();
+    let h = std::thread::spawn(move || {
+        let vb = VBuf::new(big2.len(), 1, 0);
+        vb.a.write_at(0, &big2);
+        let res = rv(w1.write_all_volatile(&vb.vs()).map(|()| big2.len()));
+        let _ = tx.send(res);
+    });
+    match rx.recv_timeout(Duration::from_secs(20)) {
+        Ok(res) => {
+            if res != std_res {
+                v("UnixStream(non-blocking)", "write_all/result-differs", jobj! {"volatile" => J::dbg(&res), "std" => J::dbg(&std_res), "case" => case});
+            }
+        }
+        Err(_) => {
+            v("UnixStream(non-blocking)", "write_all/did-not-return", jobj! {"std" => J::dbg(&std_res), "case" => case});
+            // drain so that the writer can finish
+            let mut sink = vec![0u8; 1 << 16];
+            let mut rr = r1.try_clone().unwrap();
+            let mut total = 0;
+            while total < big.len() {
+                match rr.read(&mut sink) {
+                    Ok(0) | Err(_) => break,
+                    Ok(k) => total += k,
+                }
+            }
+        }
+    }
+    let _ = h.join();
+    drop(r1);
+    out::key("special|non-blocking|write_all", true);
+    out::eval(1);
+    out::count("nonblocking_exact_cases", 1);
 }
 
 /// `WriteVolatile for Stdout`: exercised in a forked child whose descriptor 1 is a pipe (the
